@@ -459,6 +459,7 @@ func (x *inst) snapRevert() bool {
 // reopenOracle: close → open reproduces chain, attributes, data and counter.
 func (x *inst) reopenOracle() {
 	before := x.chainNames()
+	attrsBefore := x.srv.Replica().ListDisks()
 	x.reopen(true, "oracle-reopen")
 	if len(x.viol) > 0 {
 		return
@@ -471,6 +472,16 @@ func (x *inst) reopenOracle() {
 	}
 	if x.wants("chain") && !x.chainOracle() {
 		return
+	}
+	// per-snapshot attributes as the API reports them (a revision count of <= 1 is refreshed on open by design)
+	attrsAfter := x.srv.Replica().ListDisks()
+	for _, n := range before {
+		a, b := attrsBefore[n], attrsAfter[n]
+		if a.Parent != b.Parent || a.Removed != b.Removed || a.UserCreated != b.UserCreated || (a.RevisionCounter > 1 && a.RevisionCounter != b.RevisionCounter) {
+			x.violate("reopen-changed-attributes", "reopen-attributes", fmt.Sprintf("%s: before reopen parent=%s removed=%v usercreated=%v revisioncount=%d, after reopen parent=%s removed=%v usercreated=%v revisioncount=%d",
+				n, a.Parent, a.Removed, a.UserCreated, a.RevisionCounter, b.Parent, b.Removed, b.UserCreated, b.RevisionCounter))
+			return
+		}
 	}
 	if !x.readCheck(0, len(x.m.Live), "after-reopen") {
 		return
